@@ -8,6 +8,7 @@ import (
 	"verif/checks/c19"
 	"verif/checks/c23"
 	"verif/checks/c24"
+	"verif/checks/c36"
 )
 
 var checks = map[string]func(){
@@ -15,6 +16,7 @@ var checks = map[string]func(){
 	"C19": c19.Main,
 	"C23": c23.Main,
 	"C24": c24.Main,
+	"C36": c36.Main,
 }
 
 func main() {
